@@ -12,7 +12,7 @@ import rxsci.container.json as rsjson
 import rxsci.framing.line as line
 
 from rxsim.runner import Check, Outcome
-from rxsim.bytesim import gen_cuts, cut, drive, collect, SimDisk
+from rxsim.bytesim import gen_cuts, cut, drive, collect, SimDisk, dump_then_load_on_completion
 
 STRS = ['', 'a', 'line\nbreak', 'quote"inside', 'back\\slash', 'tab\there', 'é€', '\U0001F600\U00010348', '\r\n', '{"k": 1}', ' ', 'x' * 40,
         ' ', '\x00\x1f']
@@ -91,7 +91,7 @@ class C19(Check):
             'rxsci.framing.line (current working tree)', 'orjson, zlib, zstandard, codecs', 'RxPY core']
     stubs = ['simulated disk / file objects (open_obj seam, short reads)', 'final subscriber']
     assumptions = ['items are dicts (a top-level null is dropped by design); strings contain no lone surrogates; ints fit 64 bits']
-    probe_names = ('encoding:utf-16', 'encoding:latin-1', 'object>64KiB', 'compression:None', 'compression:gzip', 'compression:zstd', 'short_reads', 'one_byte_reads', 'file>64KiB', 'multibyte_chars',
+    probe_names = ('read_back_inside_completion', 'encoding:utf-16', 'encoding:latin-1', 'object>64KiB', 'compression:None', 'compression:gzip', 'compression:zstd', 'short_reads', 'one_byte_reads', 'file>64KiB', 'multibyte_chars',
                    'newline_in_string', 'empty_file', 'path:mem')
     quick_cap = 100000
 
@@ -111,6 +111,7 @@ class C19(Check):
             items[rng.randrange(len(items))]['blob'] = {'$big': [kind, n1, rng.randrange(1000)]}
         case = {'items': items, 'compression': rng.choice([None, 'gzip', 'zstd']), 'path': 'file' if rng.random() < 0.8 else 'mem',
                 'cutseed': rng.randrange(1 << 30)}
+        case['ack'] = rng.random() < 0.4
         # the optional encoding argument, given to both dump_to_file and load_from_file
         case['encoding'] = rng.choice(['utf-8', 'utf-8', 'utf-8', 'utf-8', 'utf-16', 'utf-32', 'latin-1'])
         if case['encoding'] == 'latin-1':
@@ -166,11 +167,24 @@ class C19(Check):
             if case.get('encoding', 'utf-8') != 'utf-8':
                 p['encoding:%s' % case['encoding']] += 1
             disk = SimDisk(short_reads=case.get('reads') or ())
-            _, t = collect(rx.from_(items).pipe(rsjson.dump_to_file('sim.json', compression=comp, encoding=case.get('encoding', 'utf-8'), open_obj=disk.open)))
+            enc = case.get('encoding', 'utf-8')
+            if case.get('ack'):
+                # hot source, and the file is read back from INSIDE the completion callback of the writer
+                t, got, term, still_open = dump_then_load_on_completion(
+                    items, rsjson.dump_to_file('sim.json', compression=comp, encoding=enc, open_obj=disk.open),
+                    lambda: rsjson.load_from_file('sim.json', compression=comp, encoding=enc, open_obj=disk.open), disk)
+                p['read_back_inside_completion'] += 1
+                if t is not None and t[0] == 'completed' and still_open:
+                    out.add('file-open-at-completion', 'json', {'open_files': still_open, 'compression': comp})
+                    return out
+            else:
+                _, t = collect(rx.from_(items).pipe(rsjson.dump_to_file('sim.json', compression=comp, encoding=enc, open_obj=disk.open)))
+                got, term = (None, None)
             if t is None or t[0] != 'completed':
                 out.add('dump_to_file-failed', 'json', {'terminal': repr(t), 'compression': comp})
                 return out
-            got, term = collect(rsjson.load_from_file('sim.json', compression=comp, encoding=case.get('encoding', 'utf-8'), open_obj=disk.open))
+            if not case.get('ack'):
+                got, term = collect(rsjson.load_from_file('sim.json', compression=comp, encoding=enc, open_obj=disk.open))
             size = len(disk.files.get('sim.json', b''))
             short = disk.short
             steps = disk.reads
